@@ -2,7 +2,7 @@ import ErgVerif.Util.Sexp
 import ErgVerif.C28.Model
 /-!
 Driver for C28 (`ergmodel_c28`). stdin lines:  id \t <case> \t <impl output>
-  case   ::= [(e2e)] (open V "<text>") (note V <change>…)… [(probes (L C)…)]
+  case   ::= [(e2e)] [(disk "<text already loaded from disk>")] (open V "<text>") (note V <change>…)… [(probes (L C)…)]
   change ::= (ch SL SC EL EC "<text>") | (full "<text>")
 stdout lines: id \t <model output> \t <spec verdict on the impl output> \t <inK>
   model output ::= (docs "<after open>" "<after note 1>" …) (ver V | crash <kind>) (idx I…)
@@ -12,11 +12,13 @@ The spec column maintains the *client's* copy with `Spec.apply` (LSP semantics) 
 history that is LSP-conformant (versions strictly increase, no range has its start after its end), that the
 implementation's copy after each notification equals the client's and that the server did not crash; probes demand
 `byte index = UTF-8 length of the first Spec.offset characters`.
-With `--legacy` the model column is the pinned-commit code instead (used once to validate the legacy model).
+With `--legacy` the model column is the pinned-commit code instead; with `--legacy-open` only `update` is the pinned
+version (both used once, before the respective `fix:` commits, to validate the legacy models against the old code).
 -/
 open ErgVerif ErgVerif.C28
 
 structure Case where
+  disk : Option Doc
   openVer : Int
   text : Doc
   notes : List Note
@@ -36,8 +38,10 @@ def parseProbe : Sexp → Option Pos
   | _ => none
 
 def parseItems : List Sexp → Option Int → Option Doc → List Note → List Pos → Option Case
-  | [], some v, some t, notes, probes => some ⟨v, t, notes.reverse, probes⟩
+  | [], some v, some t, notes, probes => some ⟨none, v, t, notes.reverse, probes⟩
   | [], _, _, _, _ => none
+  | .list [.atom "disk", .str d] :: rest, v, t, ns, ps =>
+    (parseItems rest v t ns ps).map (fun c => { c with disk := some d })
   | .list [.atom "e2e"] :: rest, v, t, ns, ps => parseItems rest v t ns ps
   | .list [.atom "open", v, .str t] :: rest, _, _, ns, ps =>
     match Sexp.atomInt? v with
@@ -74,8 +78,8 @@ def idxStr (legacy : Bool) (c : Case) : String :=
   "(idx" ++ String.join (c.probes.map (fun p =>
     " " ++ toString (if legacy then legacyPosToByteIndex c.text p else posToByteIndex c.text p))) ++ ")"
 
-def modelOut (legacy : Bool) (c : Case) : String :=
-  let e0 := update none c.text (some c.openVer)
+def modelOut (legacy : Bool) (legacyOpen : Bool) (c : Case) : String :=
+  let e0 := if legacy || legacyOpen then legacyOpenDoc c.disk c.text c.openVer else openDoc c.disk c.text c.openVer
   let (docs, r) := runModel legacy e0 c.notes [e0.code]
   let tail := match r with
     | .ok e => "(ver " ++ toString e.ver ++ ")"
@@ -131,14 +135,14 @@ def specVerdict (c : Case) (impl : String) : String :=
         | some v => v
         | none => "ok"
 
-def handle (legacy : Bool) (line : String) : String :=
+def handle (legacy : Bool) (legacyOpen : Bool) (line : String) : String :=
   match splitTabs line with
   | id :: input :: rest =>
     match (Sexp.parseAll input.toList).bind (fun xs => parseItems xs none none [] []) with
     | some c =>
-      id ++ "\t" ++ modelOut legacy c ++ "\t" ++ (if rest.isEmpty then "-" else specVerdict c (rest.headD "")) ++ "\t0"
+      id ++ "\t" ++ modelOut legacy legacyOpen c ++ "\t" ++ (if rest.isEmpty then "-" else specVerdict c (rest.headD "")) ++ "\t0"
     | none => id ++ "\tbad-input\t-\t-"
   | _ => "?\tbad-line\t-\t-"
 
 def main (args : List String) : IO Unit := do
-  lineLoop (← IO.getStdin) (← IO.getStdout) (handle (args.contains "--legacy"))
+  lineLoop (← IO.getStdin) (← IO.getStdout) (handle (args.contains "--legacy") (args.contains "--legacy-open"))
